@@ -20,7 +20,9 @@
 // node so side chains hit the pruned-ancestor path, hostile never-executed side
 // blocks), real (trees of the shared generator under the real difficulty rule
 // with transactions and uncles), deep (fork > 128 blocks below the head of a
-// pruning node), header (the header-only chain through InsertHeaderChain).
+// pruning node), header (the header-only chain through InsertHeaderChain),
+// local_write_race (an import and a miner-style WriteBlockWithState running
+// concurrently, forced and free interleavings; thorough also under -race).
 package c02
 
 import (
@@ -44,16 +46,22 @@ func init() {
 		Level: "exploration",
 		Rule: "a case is one import history (tree, arrival order, batching, restarts) run against a fresh real BlockChain and checked after every call. " +
 			"small: trees of <= 7 blocks from forced templates (shorter-heavier, tie at unequal/equal height, late-heaviest side branch, invalid heavy block, star, random) with per-block difficulties from {1,2,3,5,8,13} under the full-fake engine: every topological arrival order (quick: capped at 300 sampled orders when a tree has more) x one PRNG batching with re-deliveries; " +
-			"medium: 8..24 blocks, PRNG parent-closed orders with branch runs, restarts of pruning nodes, forced pruned-ancestor and borrowed-state-root templates; real: gen.GrowTree trees (26..40 main blocks, forks, uncles, transactions, 23-fast-block shorter-heavier branch, equal-height tie) under the real difficulty rule; deep: fork >128 blocks below the head of a pruning node; header: the same trees through InsertHeaderChain. " +
+			"medium: 8..24 blocks, PRNG parent-closed orders with branch runs, restarts of pruning nodes, forced pruned-ancestor and borrowed-state-root templates; real: gen.GrowTree trees (26..40 main blocks, forks, uncles, transactions, 23-fast-block shorter-heavier branch, equal-height tie) under the real difficulty rule; deep: fork >128 blocks below the head of a pruning node; header: the same trees through InsertHeaderChain; local_write_race: two sibling children of the head (heavier/lighter, or tied), one imported with InsertChain and the other written with WriteBlockWithState the way the miner does, concurrently: all four directed forced interleavings (first writer parked inside its write section until the second waits for the chain lock) plus free-running repetitions, then children of both delivered sequentially. " +
 			"non-trivial = at least one reorg happened and after at least one call the head was not the last block delivered; distinct = hash of (tree description, history).",
 		Legs: func(tier string) []fw.Leg {
-			return []fw.Leg{
+			legs := []fw.Leg{
 				{Name: "small", Variant: "plain", Batches: 16, Timeout: 120 * time.Minute},
 				{Name: "medium", Variant: "plain", Batches: 16, Timeout: 120 * time.Minute},
 				{Name: "real", Variant: "plain", Batches: 16, Timeout: 120 * time.Minute},
 				{Name: "deep", Variant: "plain", Batches: 8, Timeout: 120 * time.Minute},
 				{Name: "header", Variant: "plain", Batches: 8, Timeout: 120 * time.Minute},
+				{Name: "local_write_race", Variant: "plain", Batches: 8, Timeout: 120 * time.Minute},
 			}
+			if tier == "thorough" {
+				// the same concurrent-writer histories under the race detector
+				legs = append(legs, fw.Leg{Name: "local_write_race_tsan", Variant: "race", Batches: 8, Timeout: 120 * time.Minute})
+			}
+			return legs
 		},
 		Run: run,
 		Gate: func(tier string) map[string]int {
@@ -76,6 +84,9 @@ func init() {
 				"deep/block_stored_without_state":                             4,
 				"deep/side_block_executed_after_being_stored_without_state":   4,
 				"header/reorgs":                                               8,
+				"local_write_race/histories":                                  200,
+				"local_write_race/forced_interleavings_reached":               100,
+				"local_write_race/schedule_free":                              50,
 				"header/reorg_to_shorter_heavier":                             4,
 				"td_records_compared":                                         5000,
 				"quiescent_checks":                                            2000,
@@ -110,6 +121,8 @@ func run(c *fw.Ctx) {
 		runDeep(c)
 	case "header":
 		runHeader(c)
+	case "local_write_race", "local_write_race_tsan":
+		runRace(c)
 	}
 }
 
@@ -120,12 +133,13 @@ type history struct {
 	Hdr   bool        `json:"header_only,omitempty"`
 	Ops   []hop       `json:"ops"`
 	Order []int       `json:"order,omitempty"`
+	Hook  bool        `json:"-"`
 }
 
 // runHistory executes one history against a fresh node and checks after every step.
 func runHistory(c *fw.Ctx, id string, t *ltree, h history, sample bool) {
 	c.Case(id, h, func() {
-		m, err := newMonitor(c, t, h.Mode, h.Hdr)
+		m, err := newMonitor(c, t, h.Mode, h.Hdr, h.Hook)
 		if err != nil {
 			panic(err)
 		}
